@@ -652,12 +652,8 @@ pub fn decode_metadatum_to_json_value(
                 Ok(bytes_to_hex_string(b.as_ref()))
             }
             TransactionMetadatumEnum::Int(i) if schema != MetadataJsonSchema::NoConversions => {
-                let int_str = if i.0 >= 0 {
-                    u64::try_from(i.0).map(|x| x.to_string())
-                } else {
-                    i64::try_from(i.0).map(|x| x.to_string())
-                };
-                int_str.map_err(|e| JsError::from_str(&e.to_string()))
+                // a key is a string: every Int has a decimal form, also below i64::MIN
+                Ok(i.0.to_string())
             }
             TransactionMetadatumEnum::MetadataList(list)
                 if schema == MetadataJsonSchema::DetailedSchema =>
